@@ -13,19 +13,22 @@ LEAN_MODEL_TARGETS = ["drv_c02"]
 LEAN_PROOF_TARGETS = ["PyroProps.C02"]
 AUDIT_FILES = ["PyroModel/Expose.lean", "PyroModel/Gen/C02.lean", "PyroProofs/Expose.lean", "PyroProps/C02.lean"]
 THEOREMS = ["Pyro.C02.C02_served_sound", "Pyro.C02.C02_refused_no_effect_partial", "Pyro.C02.C02_refused_no_effect_not_full",
-            "Pyro.C02.C02_batch_refused", "Pyro.C02.C02_served_complete", "Pyro.C02.C02_metadata_exact",
+            "Pyro.C02.C02_batch_refused", "Pyro.C02.C02_history_no_memory", "Pyro.C02.C02_history_sound",
+            "Pyro.C02.C02_served_complete", "Pyro.C02.C02_metadata_exact",
             "Pyro.C02.C02_expose_marks", "Pyro.C02.C02_inherited_unexposed_refused",
             "Pyro.C02.C02_private_refused", "Pyro.C02.C02_nonstring_refused", "Pyro.C02.C02_dotted",
             "Pyro.C02.C02_unfixed_call_gate_unsound", "Pyro.C02.C02_unfixed_attr_gate_unsound",
             "Pyro.C02.C02_gen_reserved", "Pyro.C02.C02_gen_gates", "Pyro.C02.C02_gen_sources"]
-SUITES = ["dispatch", "metadata", "build"]
+SUITES = ["dispatch", "history", "metadata", "build"]
 RULE = ("class shapes generated from VERIF_SEED: 1-3 classes in an inheritance chain, members drawn from {function, staticmethod, "
         "classmethod, property with any of getter/setter/deleter, plain attribute holding data / a helper instance / a helper class} "
         "under public, private, dunder, reserved-dunder, unicode look-alike and dotted keys, exposed per member, per property, per "
         "class or not at all, oneway or not, __name__ equal to or different from the key, instance attributes that may shadow class "
         "members; materialised with type() and the real decorators; requests = every key, its _/__/dunder/dotted/look-alike variants, "
         "reserved and ambient dunder names, non-string names, x {call, oneway call, attribute read, attribute write, batch, oneway "
-        "batch, short argument lists} sent as raw MSG_INVOKE to Daemon.handleRequest. A request is non-trivial when target code ran "
+        "batch, short argument lists, attribute requests with extra falsy arguments} sent as raw MSG_INVOKE to Daemon.handleRequest; "
+        "then a history of 0-4 run-time changes (instance attribute set/deleted, class member replaced/deleted, aimed at names served "
+        "at that moment) made after the metadata was fetched, each followed by requests judged against the object's state of that moment. A request is non-trivial when target code ran "
         "or the real gate passed the private-name test (reply is not the 'private' refusal); distinct = distinct (shape, request)")
 ASSUMPTIONS = ["Python object model as modelled in PyroModel/Expose.lean: data descriptor of the type > instance __dict__ > other "
                "class attribute, MRO order, getattr(cls, name) yields the property object unevaluated, a bound method's "
@@ -145,6 +148,10 @@ def extract():
     hr = [n for n in daemon.body if isinstance(n, ast.FunctionDef) and n.name == "handleRequest"][0]
     gate_calls = sorted(((c.lineno, c.col_offset, c.func.id) for c in ast.walk(hr) if isinstance(c, ast.Call)
                          and getattr(c.func, "id", None) in ("_get_attribute", "_get_exposed_property_value", "_set_exposed_property_value")))
+    gate_args = [", ".join(ast.unparse(a) for a in c.args) + "".join(", %s=%s" % (k.arg, ast.unparse(k.value)) for k in c.keywords)
+                 for c in sorted((c for c in ast.walk(hr) if isinstance(c, ast.Call)
+                                  and getattr(c.func, "id", None) in ("_get_attribute", "_get_exposed_property_value", "_set_exposed_property_value")),
+                                 key=lambda c: (c.lineno, c.col_offset))]
     consts = sorted(((c.lineno, c.comparators[0].value) for c in ast.walk(hr) if isinstance(c, ast.Compare)
                      and getattr(c.left, "id", None) == "method" and len(c.ops) == 1 and isinstance(c.ops[0], ast.Eq)
                      and isinstance(c.comparators[0], ast.Constant)))
@@ -170,6 +177,8 @@ def getGatePrivate : Bool := {lean_bool(get_priv)}
 def setGatePrivate : Bool := {lean_bool(set_priv)}
 /-- gate functions called by Daemon.handleRequest, in source order (batch loop, attribute read, attribute write, normal call) -/
 def dispatchGateCalls : List String := {json.dumps([g[2] for g in gate_calls])}
+/-- the argument lists of those calls, as written -/
+def dispatchGateArgs : List String := {json.dumps(gate_args)}
 /-- string constants `method` is compared with in Daemon.handleRequest, in source order -/
 def dispatchMethodConsts : List String := {json.dumps([c[1] for c in consts])}
 /-- blake2b-64 of ast.unparse (docstring removed) of every modelled function -/
@@ -206,8 +215,8 @@ def spec_exposed(shape, ci, key, m):
     """explicitly exposed: itself, or by exposing the very class that defines it (lenient for properties: any of its functions)"""
     if m["k"] == "attr":
         return False
-    if shape["classes"][ci]["expose"] and not spec_private(key):
-        return True
+    if shape["classes"][ci]["expose"] and not spec_private(key) and not m.get("late"):
+        return True       # (a member installed at run time was not there when expose(cls) ran)
     if m["k"] == "prop" and m["expose"]:
         return True
     return any(f["expose"] for f in member_fns(m))
@@ -221,13 +230,41 @@ def spec_allowed(shape, n):
 
 
 def helper_ids(shape):
-    ids = set()
+    """effect ids of code reachable through plain attribute values -> is the value marked (helper class / function exposed)?"""
+    ids = {}
     vals = [m["v"] for c in shape["classes"] for _, m in c["members"] if m["k"] == "attr"] + [v for _, v in shape["inst"]]
     for v in vals:
-        if v["v"] != "data":
-            ids.add(v["callId"])
-            ids.add(v["initId"])
+        if v["v"] in ("inst", "cls"):
+            ids[v["callId"]] = v["expose"]
+            ids[v["initId"]] = v["expose"]
+        elif v["v"] == "fn":
+            ids[v["f"]["fid"]] = v["f"]["expose"]
     return ids
+
+
+def apply_step(shape, ev):
+    """the shape description after a run-time change (members installed later carry "late": no class decorator ran on them)"""
+    sh = copy.deepcopy(shape)
+
+    def put(lst, k, v):
+        for e in lst:
+            if e[0] == k:
+                e[1] = v
+                return
+        lst.append([k, v])
+    t = ev["t"]
+    if t == "is":
+        put(sh["inst"], ev["k"], ev["v"])
+    elif t == "id":
+        sh["inst"] = [e for e in sh["inst"] if e[0] != ev["k"]]
+    elif t == "ts":
+        if ev["ci"] < len(sh["classes"]):
+            put(sh["classes"][ev["ci"]]["members"], ev["k"], dict(ev["m"], late=True))
+    elif t == "td":
+        if ev["ci"] < len(sh["classes"]):
+            c = sh["classes"][ev["ci"]]
+            c["members"] = [e for e in c["members"] if e[0] != ev["k"]]
+    return sh
 
 
 def req_kind(req):
@@ -250,11 +287,12 @@ def req_names(req):
 
 
 def holds_helper(shape, n):
+    """the name denotes a plain attribute whose value is an instance / the class of an EXPOSED helper class (finding F2b)"""
     inst = dict((k, v) for k, v in shape["inst"])
-    if isinstance(n, str) and n in inst and inst[n]["v"] != "data":
-        return True
+    if isinstance(n, str) and n in inst:
+        return inst[n]["v"] in ("inst", "cls") and inst[n]["expose"]
     r = resolve(shape, n) if isinstance(n, str) else None
-    return bool(r) and r[1]["k"] == "attr" and r[1]["v"]["v"] != "data"
+    return bool(r) and r[1]["k"] == "attr" and r[1]["v"]["v"] in ("inst", "cls") and r[1]["v"]["expose"]
 
 
 def judge(shape, req, reply, eff):
@@ -271,7 +309,7 @@ def judge(shape, req, reply, eff):
     for fid in eff:
         if fid in justified:
             continue
-        if fid in hids:
+        if hids.get(fid):
             out.append(("exposed-helper-attribute-invoked",
                         "%s request %r invoked a plain attribute holding an instance / the class of an @expose'd helper class (effect %d)"
                         % (kind, names, fid)))
@@ -283,6 +321,9 @@ def judge(shape, req, reply, eff):
                         "%s request served the private name %r (effect %d)" % (kind, names, fid)))
         elif any(isinstance(n, str) and spec_private(n) and resolve(shape, n) for n in names):
             out.append(("private-name-served:" + kind, "%s request %r ran code stored under a private name (effect %d)" % (kind, names, fid)))
+        elif fid in hids:
+            out.append(("unexposed-value-invoked:" + kind,
+                        "%s request %r invoked an unexposed callable stored in a plain attribute (effect %d)" % (kind, names, fid)))
         else:
             out.append(("unexposed-code-ran:" + kind, "%s request %r ran code that is not exposed (effect %d)" % (kind, names, fid)))
         break
@@ -350,7 +391,7 @@ AMBIENT = ["__dict__", "__doc__", "__module__", "__weakref__", "__class__", "__i
            "_pyroExposed", "_pyroOneway", "_pyroId", "_pyroDaemon", "_pyroInstancing", "fget", "fset", ""]
 HOMOGLYPH = {"m": "м", "a": "а", "o": "о", "e": "е", "x": "х", "n": "ո", "i": "і", "v": "ν",
              "g": "ɡ", "l": "ⅼ", "t": "ｔ"}
-NONSTR_TAGS = ["int", "none", "float", "bool", "tuple", "set", "list", "dict", "bytes"]
+NONSTR_TAGS = ["int", "none", "float", "bool", "tuple", "set", "list", "dict", "bytes", "false", "zero"]
 
 
 def _key(rng):
@@ -388,9 +429,12 @@ class _Gen:
             expose = False          # keep decorator refusals (build errors) rare
         return {"name": name, "fid": self.next_id(), "expose": expose, "oneway": rng.random() < 0.2}
 
-    def val(self):
+    def val(self, allow_fn=False):
         rng = self.rng
         r = rng.random()
+        if allow_fn and r < 0.25:
+            # a plain function stored in the instance dict; never exposed (whether an exposed one "is a method" is not the statement's business)
+            return {"v": "fn", "f": {"name": rng.choice(["plain", "m", "_p"]), "fid": self.next_id(), "expose": False, "oneway": rng.random() < 0.2}}
         if r < 0.35:
             return {"v": "data"}
         return {"v": "inst" if r < 0.8 else "cls", "expose": rng.random() < 0.5, "call": rng.random() < 0.6,
@@ -422,20 +466,65 @@ class _Gen:
         rng = self.rng
         self.fid = 0
         classes = []
-        for _ in range(rng.choice([1, 1, 2, 2, 3])):
+        for ci in range(rng.choice([1, 1, 2, 2, 3])):
             keys = []
             for _ in range(rng.choice([0, 1, 2, 3, 4, 5, 6])):
                 k = _key(rng)
+                if k not in keys:
+                    keys.append(k)
+            if ci > 0 and classes[0]["members"] and rng.random() < 0.35:
+                k = rng.choice(classes[0]["members"])[0]      # a base class member that the registered class overrides
                 if k not in keys:
                     keys.append(k)
             classes.append({"expose": rng.random() < 0.35, "members": [[k, self.member(k)] for k in keys]})
         inst = []
         type_keys = [k for c in classes for k, _ in c["members"]]
         for _ in range(rng.choice([0, 0, 1, 2, 3])):
-            k = rng.choice(type_keys) if type_keys and rng.random() < 0.2 else rng.choice(["iv", "helper", "d", "_iv", "m", "val"])
+            k = rng.choice(type_keys) if type_keys and rng.random() < 0.3 else rng.choice(["iv", "helper", "d", "_iv", "m", "val"])
             if k not in [x for x, _ in inst]:
-                inst.append([k, self.val()])
+                inst.append([k, self.val(allow_fn=True)])
         return {"classes": classes, "inst": inst}
+
+    def history(self, shape, names):
+        """run-time changes after the metadata was fetched (the member cache is filled and never reset), each followed by
+        requests for the changed name in every kind; aimed at names that are served at that moment"""
+        rng = self.rng
+        cur = shape
+        evs = []
+
+        def q(method, args=(), batch=False, oneway=False):
+            evs.append({"t": "q", "req": {"batch": batch, "oneway": oneway, "method": method, "args": list(args)}})
+        for _ in range(rng.choice([0, 1, 2, 3, 3, 4])):
+            tkeys = [k for c in cur["classes"] for k, _ in c["members"]]
+            ikeys = [k for k, _ in cur["inst"]]
+            served = [k for k in tkeys if spec_allowed(cur, k)]
+            if served and rng.random() < 0.65:
+                k = rng.choice(served)
+            else:
+                k = rng.choice(tkeys + ikeys + ["m", "val", "zz", "_x"])
+            r = resolve(cur, k)
+            ci = r[0] if r and rng.random() < 0.7 else rng.randrange(max(1, len(cur["classes"])))
+            x = rng.random()
+            if x < 0.3:
+                ev = {"t": "is", "k": k, "v": self.val(allow_fn=True)}
+            elif x < 0.4:
+                ev = {"t": "id", "k": rng.choice(ikeys) if ikeys and rng.random() < 0.7 else k}
+            elif x < 0.75:
+                ev = {"t": "ts", "ci": ci, "k": k, "m": self.member(k)}
+            else:
+                ev = {"t": "td", "ci": ci, "k": k}
+            evs.append(ev)
+            cur = apply_step(cur, ev)
+            others = rng.sample(names, min(2, len(names))) if names else []
+            for n in [ev["k"]] + others:
+                q(n)
+                q(n, oneway=True)
+                q("__getattr__", [n])
+                q("__setattr__", [n, "v"])
+                q("<batch>", [n], batch=True)
+                if served:
+                    q("<batch>", [rng.choice(served), n, rng.choice(served)], batch=True, oneway=rng.random() < 0.2)
+        return evs
 
 
 def _variants(rng, k):
@@ -490,6 +579,12 @@ def gen_requests(rng, shape, reserved, thorough=False):
             q("__setattr__", [n, "v"], oneway=True)
         if rng.random() < 0.15:
             q(n, ["arg", n])                       # a normal call with arguments that look like names
+        if is_key or rng.random() < 0.15:          # attribute requests with EXTRA positional arguments (falsy: would switch a flag off)
+            falsy = rng.choice([{"ns": "false"}, {"ns": "zero"}, {"ns": "none"}, ""])
+            q("__getattr__", [n, falsy], oneway=rng.random() < 0.15)
+            q("__setattr__", [n, "v", falsy], oneway=rng.random() < 0.15)
+            if rng.random() < 0.2:
+                q("__getattr__", [n, rng.choice(["x", {"ns": "int"}]), falsy])
     served_keys = [k for k in keys if spec_allowed(shape, k)]
     for _ in range(10 if not thorough else 25):
         ln = rng.choice([0, 1, 1, 2, 3, 4])
@@ -526,6 +621,8 @@ def _fn_tok(f):
 def _val_tok(v):
     if v["v"] == "data":
         return ["vd"]
+    if v["v"] == "fn":
+        return ["vf"] + _fn_tok(v["f"])
     return ["vi" if v["v"] == "inst" else "vc", _b(v["expose"]), _b(v["call"]), str(v["callId"]), str(v["initId"])]
 
 
@@ -556,7 +653,26 @@ class NameCodec:
         return self.tags[n["ns"]]
 
 
-def shape_line(codec, shape, reqs):
+def _req_tok(codec, r):
+    return ["q", _b(r["batch"]), _b(r["oneway"]), codec.tok(r["method"]), str(len(r["args"]))] + [codec.tok(a) for a in r["args"]]
+
+
+def _event_tok(codec, ev):
+    t = ev["t"]
+    if t == "q":
+        return _req_tok(codec, ev["req"])
+    if t == "is":
+        return ["is", cps(ev["k"])] + _val_tok(ev["v"])
+    if t == "id":
+        return ["id", cps(ev["k"])]
+    if t == "ts":
+        return ["ts", str(ev["ci"]), cps(ev["k"])] + _member_tok(ev["m"])
+    if t == "td":
+        return ["td", str(ev["ci"]), cps(ev["k"])]
+    raise ValueError(t)
+
+
+def shape_line(codec, shape, reqs, events=()):
     t = ["S", str(len(shape["classes"]))]
     for c in shape["classes"]:
         t += ["C", _b(c["expose"]), str(len(c["members"]))]
@@ -567,7 +683,11 @@ def shape_line(codec, shape, reqs):
         t += [cps(k)] + _val_tok(v)
     t += ["R", str(len(reqs))]
     for r in reqs:
-        t += ["q", _b(r["batch"]), _b(r["oneway"]), codec.tok(r["method"]), str(len(r["args"]))] + [codec.tok(a) for a in r["args"]]
+        t += _req_tok(codec, r)
+    if events:
+        t += ["E", str(len(events))]
+        for ev in events:
+            t += _event_tok(codec, ev)
     return " ".join(t)
 
 
@@ -579,8 +699,12 @@ def real_line(build_err, md, results):
     if build_err:
         return "builderr:" + build_err
     parts = ["ok M %s O %s A %s" % (_names_tok(md["methods"]), _names_tok(md["oneway"]), _names_tok(md["attrs"]))]
-    for reply, eff in results:
-        parts.append("%s %s" % (reply, ",".join(map(str, eff)) if eff else "-"))
+    for res in results:
+        if isinstance(res, str):
+            parts.append(res)                 # a step of the history: "step" / "steperr:.."
+        else:
+            reply, eff = res
+            parts.append("%s %s" % (reply, ",".join(map(str, eff)) if eff else "-"))
     return " | ".join(parts)
 
 
@@ -619,6 +743,8 @@ def coarse(shape_keys, req):
 
 
 def _coarsen(tok):
+    if tok.startswith("step"):
+        return tok
     reply, _, eff = tok.partition(" ")
     if reply.startswith("error:"):
         reply = "error:*"
@@ -653,8 +779,8 @@ def _shape_keys(shape):
     return {k for c in shape["classes"] for k, _ in c["members"]} | {k for k, _ in shape["inst"]}
 
 
-def _check_case(ctx, real, codec, shape, reqs, keys, tag):
-    """run one shape on the real code, apply the property oracle (step D); returns the canonical real line"""
+def _check_case(ctx, real, codec, shape, reqs, keys, tag, events=()):
+    """run one shape (and its history) on the real code, apply the property oracle (step D); returns the canonical real line"""
     build_err, md, results = run_case(real, codec, shape, reqs)
     ctx.count("build:" + (build_err or "ok"))
     if build_err:
@@ -666,20 +792,27 @@ def _check_case(ctx, real, codec, shape, reqs, keys, tag):
     to_shrink, later = [], []
     if not hasattr(ctx, "c02_seen"):
         ctx.c02_seen = set()
-    for r, (reply, eff) in zip(reqs, results):
+
+    def judged(cur, steps, r, reply, eff, stage):
         ctx.evaluations += 1
         kind = req_kind(r)
-        ctx.count("%s%s:%s" % (kind, "/oneway" if r["oneway"] else "", reply))
+        ctx.count("%s%s%s:%s" % (stage, kind, "/oneway" if r["oneway"] else "", reply))
         if eff or reply not in ("error:priv",):
-            ctx.nontriv(shape_id + json.dumps(r, sort_keys=True))
-        if eff and len(ctx.samples) < 4 and len(shape_id) < 900:
-            ctx.sample({"shape": shape, "request": r, "reply": reply, "effects": eff})
-        for sig, desc in judge(shape, r, reply, eff):
+            ctx.nontriv(shape_id + json.dumps([steps, r], sort_keys=True))
+        if eff and len(ctx.samples) < 4 and len(shape_id) < 900 and (stage or len(ctx.samples) < 2):
+            ctx.sample({"shape": shape, "steps": steps, "request": r, "reply": reply, "effects": eff})
+        for sig, desc in judge(cur, r, reply, eff):
+            if steps:
+                desc += " after %d run-time change(s) of the object" % len(steps)
             if sig in ctx.c02_seen:
-                later.append((sig, desc + " [%s]" % tag, {"shape": shape, "req": r}))
+                later.append((sig, desc + " [%s]" % tag, {"shape": shape, "steps": list(steps), "req": r}))
             else:
                 ctx.c02_seen.add(sig)
-                to_shrink.append((sig, desc, r))
+                to_shrink.append((sig, desc, list(steps), r))
+
+    for r, (reply, eff) in zip(reqs, results):
+        judged(shape, [], r, reply, eff, "")
+        kind = req_kind(r)
         flags.append(coarse(skeys, r))
         if not r["batch"] and not r["oneway"] and len(req_names(r)) == 1 and isinstance(req_names(r)[0], str) \
                 and (kind == "call" and not r["args"] or kind == "getattr" and len(r["args"]) == 1 or kind == "setattr" and len(r["args"]) == 2):
@@ -697,41 +830,74 @@ def _check_case(ctx, real, codec, shape, reqs, keys, tag):
         full[n] = s
     for sig, desc in judge_metadata(shape, md, full):
         later.append((sig, desc + " [%s]" % tag, {"shape": shape, "req": None}))
+    # ---- the history: run-time changes (metadata cache filled above, never reset), each request judged against the state of its moment
+    cur, steps = shape, []
+    results = list(results)
+    for ev in events:
+        if ev["t"] == "q":
+            reply, eff = real.request(ev["req"])
+            results.append((reply, eff))
+            flags.append(coarse(_shape_keys(cur) | skeys, ev["req"]))
+            judged(cur, steps, ev["req"], reply, eff, "hist:")
+        else:
+            out = real.step(ev)
+            ctx.count("step:%s:%s" % (ev["t"], out))
+            results.append(out)
+            flags.append(False)
+            if out == "step":
+                cur = apply_step(cur, ev)
+                steps = steps + [ev]
     line = real_line(None, md, results)
-    for sig, desc, r in to_shrink:      # first failure of each class in a run: minimise the shape (re-running the real code)
-        small = _shrink(real, shape, r, sig)
-        ctx.fail(sig, desc + " [%s, shape minimised]" % tag, {"shape": small, "req": r})
+    for sig, desc, st, r in to_shrink:      # first failure of each class in a run: minimise shape and history (re-running the real code)
+        small, st2 = _shrink(real, shape, st, r, sig)
+        case = {"shape": small, "req": r}
+        if st2:
+            case["steps"] = st2
+        ctx.fail(sig, desc + " [%s, minimised]" % tag, case)
     for sig, desc, case in later:
         ctx.fail(sig, desc, case)
     return line, flags
 
 
-def _shrink(real, shape, req, sig):
-    """greedy removal of members / instance attributes / empty classes while the real code still fails the same way"""
-    def fails(sh):
-        if real.build(sh):
-            return False
-        reply, eff = real.request(req)
-        return any(s == sig for s, _ in judge(sh, req, reply, eff))
-    cur = copy.deepcopy(shape)
-    if not fails(cur):
-        return shape
+def _replay_case(real, shape, steps, req):
+    """build, fetch the metadata (fills the member cache), apply the steps, send the request; -> (state description, reply, effects) or None"""
+    if real.build(shape):
+        return None
+    real.metadata()
+    cur = shape
+    for ev in steps:
+        if real.step(ev) == "step":
+            cur = apply_step(cur, ev)
+    reply, eff = real.request(req)
+    return cur, reply, eff
+
+
+def _shrink(real, shape, steps, req, sig):
+    """greedy removal of steps / members / instance attributes / empty classes while the real code still fails the same way"""
+    def fails(sh, st):
+        out = _replay_case(real, sh, st, req)
+        return bool(out) and any(s == sig for s, _ in judge(out[0], req, out[1], out[2]))
+    cur, cst = copy.deepcopy(shape), list(steps)
+    if not fails(cur, cst):
+        return shape, steps
     progress = True
     while progress:
         progress = False
-        cands = []
+        cands = [("s", i, 0) for i in range(len(cst))]
         for ci, c in enumerate(cur["classes"]):
             for mi in range(len(c["members"])):
                 cands.append(("m", ci, mi))
-            if not c["members"] and len(cur["classes"]) > 1:
+            if not c["members"] and len(cur["classes"]) > 1 and not any(e.get("ci", -1) >= ci for e in cst):
                 cands.append(("c", ci, 0))
             if c["expose"]:
                 cands.append(("e", ci, 0))
         for ii in range(len(cur["inst"])):
             cands.append(("i", ii, 0))
         for kind, a, b in cands:
-            cand = copy.deepcopy(cur)
-            if kind == "m":
+            cand, cand_st = copy.deepcopy(cur), list(cst)
+            if kind == "s":
+                del cand_st[a]
+            elif kind == "m":
                 del cand["classes"][a]["members"][b]
             elif kind == "c":
                 del cand["classes"][a]
@@ -739,10 +905,10 @@ def _shrink(real, shape, req, sig):
                 cand["classes"][a]["expose"] = False
             else:
                 del cand["inst"][a]
-            if fails(cand):
-                cur, progress = cand, True
+            if fails(cand, cand_st):
+                cur, cst, progress = cand, cand_st, True
                 break
-    return cur
+    return cur, cst
 
 
 def _apply_coarse(line, flags):
@@ -812,25 +978,26 @@ def _run(ctx, name, nshapes, do_model, extra_shapes=()):
         if name == "corr":
             for c in _load_corpus():
                 keys = sorted(_shape_keys(c["shape"]))
-                cases.append((c["shape"], c["reqs"], keys, "corpus/" + c["corpus"]))
+                cases.append((c["shape"], c["reqs"], keys, "corpus/" + c["corpus"], c.get("events", [])))
         for i, shape in enumerate(extra_shapes):
             keys, reqs = gen_requests(rng, shape, reserved, False)
-            cases.append((shape, reqs, keys, "%s-seed#%d" % (name, i)))
+            gen.fid = 500
+            cases.append((shape, reqs, keys, "%s-seed#%d" % (name, i), gen.history(shape, keys)))
         for i in range(nshapes):
             shape = gen.shape()
             keys, reqs = gen_requests(rng, shape, reserved, thorough and i % 20 == 0)
-            cases.append((shape, reqs, keys, "%s#%d" % (name, i)))
+            cases.append((shape, reqs, keys, "%s#%d" % (name, i), gen.history(shape, keys)))
         lines, reals, flagss = [], [], []
-        for shape, reqs, keys, tag in cases:
-            line, flags = _check_case(ctx, real, codec, shape, reqs, keys, tag)
+        for shape, reqs, keys, tag, events in cases:
+            line, flags = _check_case(ctx, real, codec, shape, reqs, keys, tag, events)
             reals.append(line)
             flagss.append(flags)
             if do_model:
-                lines.append(shape_line(codec, shape, reqs))
+                lines.append(shape_line(codec, shape, reqs, events))
         if do_model:
             outs = common.run_driver("drv_c02", lines)
-            ctx.corr_cases += sum(len(c[1]) for c in cases) + len(cases)
-            for (shape, reqs, keys, tag), real_l, flags, model_l in zip(cases, reals, flagss, outs):
+            ctx.corr_cases += sum(len(c[1]) + len(c[4]) for c in cases) + len(cases)
+            for (shape, reqs, keys, tag, events), real_l, flags, model_l in zip(cases, reals, flagss, outs):
                 model_l = _sort_model_line(model_l)
                 r, m = _apply_coarse(real_l, flags), _apply_coarse(model_l, flags)
                 if r == m:
@@ -839,9 +1006,16 @@ def _run(ctx, name, nshapes, do_model, extra_shapes=()):
                 if rp[0] != mp[0]:
                     suite = "build" if (rp[0].startswith("builderr") or mp[0].startswith("builderr")) else "metadata"
                     ctx.mismatch(suite, {"shape": shape, "tag": tag}, rp[0], mp[0])
+                items = [{"t": "q", "req": q} for q in reqs] + list(events)
                 for i, (a, b) in enumerate(zip(rp[1:], mp[1:])):
                     if a != b:
-                        ctx.mismatch("dispatch", {"shape": shape, "req": reqs[i], "tag": tag}, a, b)
+                        steps = [e for e in items[:i] if e["t"] != "q"]
+                        case = {"shape": shape, "tag": tag, "req": items[i]["req"] if items[i]["t"] == "q" else None}
+                        if steps:
+                            case["steps"] = steps
+                        if items[i]["t"] != "q":
+                            case["step"] = items[i]
+                        ctx.mismatch("history" if i >= len(reqs) else "dispatch", case, a, b)
                         break
                 if len(rp) != len(mp) and rp[0] == mp[0]:
                     ctx.mismatch("dispatch", {"shape": shape, "tag": tag}, "%d replies" % (len(rp) - 1), "%d replies" % (len(mp) - 1))
@@ -851,7 +1025,7 @@ def _run(ctx, name, nshapes, do_model, extra_shapes=()):
 
 
 def correspondence(ctx):
-    _run(ctx, "corr", ctx.n(150, 3000), True)
+    _run(ctx, "corr", ctx.n(150, 2400), True)
 
 
 def oracle(ctx):
@@ -878,19 +1052,25 @@ def replay(ctx, case):
     from props import c02_real
     real = c02_real.Real()
     try:
-        shape, req = c["shape"], c.get("req")
+        shape, req, steps = c["shape"], c.get("req"), c.get("steps", [])
         err = real.build(shape)
         print("shape:", json.dumps(shape))
         if err:
             print("the decorators refused the shape:", err)
             return 0
         md = real.metadata()
-        print("advertised metadata:", md)
+        print("advertised metadata (this also fills the per-class member cache):", md)
         bad = []
         if req is not None:
+            cur = shape
+            for ev in steps:
+                out = real.step(ev)
+                print("run-time change %s -> %s" % (json.dumps(ev), out))
+                if out == "step":
+                    cur = apply_step(cur, ev)
             reply, eff = real.request(req)
             print("request %s -> reply %s, target code that ran (effect ids): %s" % (json.dumps(req), reply, eff))
-            bad = judge(shape, req, reply, eff)
+            bad = judge(cur, req, reply, eff)
         else:
             served = {}
             for n in sorted(_shape_keys(shape) | set(md["methods"]) | set(md["attrs"])):
